@@ -187,11 +187,14 @@ def _same(sx, a, b):
     return a == b
 
 
+_ROOT = os.path.dirname(os.path.dirname(os.path.abspath(__file__)))
+
+
 def _spawn(component, seed, hashseeds):
     procs = []
     for hs in hashseeds:
-        env = dict(os.environ, PYTHONHASHSEED=str(hs), PYTHONPATH='/verif:' + os.environ.get('SYMX_DEV_TREE', '/repo'))
-        procs.append(subprocess.Popen(['/venv/bin/python', '-W', 'ignore', '/verif/harness/c13_components.py', component, str(seed), str(111 * hs)],
+        env = dict(os.environ, PYTHONHASHSEED=str(hs), PYTHONPATH=_ROOT + ':' + os.environ.get('SYMX_DEV_TREE', '/repo'))
+        procs.append(subprocess.Popen(['/venv/bin/python', '-W', 'ignore', _ROOT + '/harness/c13_components.py', component, str(seed), str(111 * hs)],
                                       env=env, stdout=subprocess.PIPE, stderr=subprocess.PIPE, text=True))
     outs = []
     for p in procs:
